@@ -820,6 +820,14 @@ func (sp *Specs) loadTrustedSpecs(dir string) {
 			}
 		}
 		sp.parseSpecText(f, sb.String(), "")
+		if strings.Contains(f, string(filepath.Separator)+"generated"+string(filepath.Separator)) {
+			// contracts derived mechanically from repository data (e.g. gen/metadata.json): verified, not assumed
+			for _, fs := range sp.Funcs {
+				if strings.HasPrefix(fs.Where, filepath.Base(f)+":") {
+					fs.Trusted = false
+				}
+			}
+		}
 	}
 }
 
